@@ -459,7 +459,9 @@ func (x *Exec) runStepOps(si int, ops []OpSpec, faults []FaultSpec) []*OpResult 
 				r.Faults = append(r.Faults, q.Fault)
 			}
 		}
-		s.Event("RESULT %s %s ok=%v crashed=%v err=%q", r.Proc, r.Op.Op, r.OK, r.Crashed, trunc(r.Err, 200))
+		// net/http words a client time-out in two ways depending on which of its own goroutines wins; same event
+		errText := strings.ReplaceAll(r.Err, " (Client.Timeout exceeded while awaiting headers)", "")
+		s.Event("RESULT %s %s ok=%v crashed=%v err=%q", r.Proc, r.Op.Op, r.OK, r.Crashed, trunc(errText, 200))
 	}
 	return results
 }
@@ -645,6 +647,10 @@ func Execute(t *testing.T, plan *Plan, oracle func(x *Exec, so *StepObs), final 
 		x.Sim = NewSim(plan.Schedule, plan.Policy)
 		x.Sim.KeepEv = keepEvents
 		x.Sim.coRelease = plan.CoRelease
+		x.Sim.StallDur = time.Duration(plan.ClientTOs)*time.Second - time.Second
+		if x.Sim.StallDur <= 0 {
+			x.Sim.StallDur = 29 * time.Second
+		}
 		if plan.Policy == "pct" {
 			x.Sim.prio = map[string]int{}
 			x.Sim.pctChg = plan.PCT
